@@ -4,6 +4,7 @@ from fractions import Fraction as F
 from core import Case, q, qs, fr, show_list, show_pts
 import gen as G
 import shapes as S
+import rowsops as RO
 
 PID = 'C04'
 FLOAT_KINDS = {'ins-method', 'ins-op', 'ins-method-seq'}      # float-mode companion (core.float_companion)
@@ -14,6 +15,7 @@ PARTIAL = [
     "the tie between the list program A5.1 (`temp` triangle with in-place updates, edge writes) and the model's index-by-index output is the correspondence, not a Lean theorem",
     "object level (Props/C04.lean, insertKnot_preserves_surface / _volume, insert_call_sequence_preserves_surface / _volume): one insert_knot call with any subset of the directions of a surface or a volume, and any sequence of such calls, completes and preserves well-formedness, the domain and every evaluated point at every parameter of the domain - under the explicit hypothesis that every requested direction is admissible (DirReqOk: parameter in the half-open domain [U_p, U_n), the multiplicity s computed by find_multiplicity is a run ending at the span, r + s <= p; derivable from tolerance separation by insert_request_admissible); a direction rejected by the multiplicity check leaves the earlier directions applied and the points unchanged (insertKnot_partial_application_*). NOT covered by a theorem: a parameter outside the half-open domain of its direction (e.g. u = U_n), check=False with r + s > p, and curve objects at Shape level (curves are proved at helper level: insert_sequence_preserves - points unchanged on the closed domain AND the final state CurveWF with both domain ends unchanged; insert_net_length: r more points, each of the same dimension)",
     "rational objects: the theorems are about the homogeneous net (coordinatewise, weight coordinate included); the projection is C01/C09's",
+    "list-of-rows branch of helpers.knot_insertion (volumes): MODELLED (knotInsertionRows, index form like the point branch; gather / scatter volRows / volUnrows / mapVolRows with the index expressions of operations.insert_knot; streams ins-rows / ins-vol-rows against the real helper called with rows and against operations.insert_knot) and PROVED equal to the per-iso-curve model (knotInsertionRows_isocurve: no hypothesis; knotInsertionRows_is_transposed_knotInsertion; mapVolRows_insert_eq_mapVol; insertKnotVolRows_is_insertKnotDir), so the volume theorems are about what the rows branch computes. Not covered: ragged rows (rows of different lengths) beyond the iso-curve statement; the tie between the in-place loops on rows (temp[i][idx][:] = ...) and the index form is the correspondence",
 ]
 
 
@@ -139,6 +141,58 @@ def gen(rng, tier):
         line = "%s %s %s %s" % ('ins' if kind == 'ins-op' else 'insm', KIND[d['kind']], S.args(d), req_txt(prm, nums))
         G.count('ins_param', 'zero-inside-domain')
         out.append(Case(kind, line, dict(shape=d, reqs=[[prm, nums]]), tags=('zero-param',)))
+    # the LIST-OF-ROWS branch of helpers.knot_insertion (what operations.insert_knot feeds for volumes):
+    # helper level on rows gathered from a random volume or on random rows, against `knotInsertionRows`
+    for _ in range(40 if tier == 'quick' else 500):
+        if rng.random() < .5:
+            d = S.rand_volume(rng, maxp=3, max_interior=2, allow_range=False)
+            i = rng.randrange(3)
+            p, kv, n_ = S.dirs(d)[i]
+            R = RO.gather(d, i)
+            G.count('rows_source', 'volume-dir%d' % i)
+        else:
+            p = rng.randint(1, 4)
+            kv, n_, R = RO.rand_rows(rng, p)
+            G.count('rows_source', 'random')
+        interior = sorted(set(kv[p + 1:n_]))
+        if interior and rng.random() < .4:
+            u = rng.choice(interior)
+        else:
+            u = kv[p] + (kv[n_] - kv[p]) * F(rng.randint(1, 99), 100)
+        s = RO.mult(kv, u)
+        if s >= p:
+            continue
+        r = rng.randint(1, p - s)
+        k = RO.span(kv, p, n_, u)
+        G.count('rows_ins', (p, s, r))
+        out.append(Case('ins-rows', RO.rows_line('rowsins', p, kv, R, fr(u), r, s, k), dict(p=p, kv=kv, R=R, u=u, r=r, s=s, k=k)))
+    # one direction of operations.insert_knot on a volume against the gather / rows-branch / scatter model
+    for _ in range(25 if tier == 'quick' else 300):
+        d = S.rand_volume(rng, maxp=3, max_interior=2)
+        i = rng.randrange(3)
+        p, kv, n_ = S.dirs(d)[i]
+        interior = sorted(set(kv[p + 1:n_]))
+        if interior and rng.random() < .4:
+            u = rng.choice(interior)
+        else:
+            u = kv[p] + (kv[n_] - kv[p]) * F(rng.randint(1, 99), 100)
+        s = RO.mult(kv, u)
+        room = p - s
+        over = rng.random() < .1
+        if room <= 0 and not over:
+            continue
+        r = room + 1 if over else rng.randint(1, room)
+        reqs = [(i, u, r)]
+        if not over and rng.random() < .35:        # a second direction on the result of the first
+            i2 = rng.choice([x for x in range(3) if x != i])
+            p2, kv2, n2 = S.dirs(d)[i2]
+            u2 = kv2[p2] + (kv2[n2] - kv2[p2]) * F(rng.randint(1, 99), 100)
+            s2 = RO.mult(kv2, u2)
+            if s2 < p2:
+                reqs.append((i2, u2, rng.randint(1, p2 - s2)))
+        G.count('rows_vol_ins', (len(reqs), over))
+        line = "rowsvol v %s %s" % (S.args(d), " ".join("I %d %s %d 1" % (a, fr(b), c_) for a, b, c_ in reqs))
+        out.append(Case('ins-vol-rows', line, dict(shape=d, reqs=[[a, b, c_] for a, b, c_ in reqs])))
     return out
 
 
@@ -162,7 +216,28 @@ def _apply(o, d, reqs, method):
     return o
 
 
+def _rows_call(c):
+    from geomdl import helpers
+    x = c.data
+    return RO.unq(helpers.knot_insertion(x['p'], qs(x['kv']), RO.qrows(x['R']), q(x['u']), num=x['r'], s=x['s'], span=x['k']))
+
+
+def _vol_rows(c):
+    from geomdl import operations
+    o = S.build(c.data['shape'])
+    for i, u, r in c.data['reqs']:
+        prm = [None] * 3; prm[i] = q(u)
+        nums = [0] * 3; nums[i] = r
+        operations.insert_knot(o, prm, nums)
+    return o
+
+
 def impl(c):
+    if c.kind == 'ins-rows':
+        from core import show_pts2
+        return show_pts2(_rows_call(c))
+    if c.kind == 'ins-vol-rows':
+        return show_shape(S.from_obj(_vol_rows(c)))
     d = c.data['shape']
     o = S.build(d)
     _apply(o, d, c.data['reqs'], c.kind != 'ins-op')
@@ -184,7 +259,44 @@ def probe_params(d, extra):
     return res
 
 
+def _oracle_rows(c):
+    """the rows branch must return, iso-curve by iso-curve, what the point branch returns"""
+    from geomdl import helpers
+    x = c.data
+    try:
+        Q = _rows_call(c)
+    except Exception as e:
+        return "knot_insertion on rows raised %s: %s" % (type(e).__name__, e)
+    m = len(x['R'][0])
+    cols = []
+    for j in range(m):
+        col = [[q(v) for v in pt] for pt in RO.column(x['R'], j)]
+        cols.append(RO.unq([helpers.knot_insertion(x['p'], qs(x['kv']), col, q(x['u']), num=x['r'], s=x['s'], span=x['k'])])[0])
+    if Q != RO.from_columns(cols):
+        return "knot_insertion on a list of rows differs from knot_insertion applied to every iso-curve"
+    return None
+
+
 def oracle(c):
+    if c.kind == 'ins-rows':
+        return _oracle_rows(c)
+    if c.kind == 'ins-vol-rows':
+        d = c.data['shape']
+        p, kv, n = S.dirs(d)[c.data['reqs'][0][0]]
+        over = c.data['reqs'][0][2] + RO.mult(kv, c.data['reqs'][0][1]) > p
+        try:
+            o = _vol_rows(c)
+        except Exception as e:
+            return None if over else "admissible insertion raised %s: %s" % (type(e).__name__, e)
+        if over:
+            return "insertion beyond the allowed multiplicity was not rejected"
+        after = S.from_obj(o)
+        extra = [[u for i, u, r in c.data['reqs'] if i == k] for k in range(3)]
+        for combo in itertools.product(*probe_params(d, extra)):
+            a = S.eval_ref(d, list(combo)); b = S.eval_ref(after, list(combo))
+            if a != b:
+                return "point at %s moved from %s to %s" % (tuple(map(fr, combo)), show_list(a), show_list(b))
+        return None
     d = c.data['shape']
     reqs = c.data['reqs']
     method = c.kind != 'ins-op'
